@@ -109,7 +109,7 @@ def rule_flow(ctx: Ctx):
                   fn.key, f"unwrap cases present: {sorted(shapes)}")
 
 
-def rule_collect(ctx: Ctx):
+def rule_collect(ctx: Ctx, rule: str = "C14.collect"):
     rep = ctx.rep
     # sync: list of every selected callback's value
     fn = ctx.fn("CallbacksExecutor.call")
@@ -121,7 +121,7 @@ def rule_collect(ctx: Ctx):
             t = g.target.id if isinstance(g.target, ast.Name) else "?"
             ok = show(v.elt) == f"{t}.call(*args, **kwargs)" and all(
                 isinstance(c, ast.Call) and show(c.func) == f"{t}.condition" for c in g.ifs)
-        rep.check(bool(ok), "C14.collect", fn.loc(), "executor.call returns the value of every selected callback, in order, unfiltered "
+        rep.check(bool(ok), rule, fn.loc(), "executor.call returns the value of every selected callback, in order, unfiltered "
                   "(an explicit None stays in the list)", fn.key, f"return {show(v)}")
     fn = ctx.fn("CallbacksExecutor.async_call")
     for p in ctx.paths(fn, exc_edges="none"):
@@ -136,19 +136,19 @@ def rule_collect(ctx: Ctx):
                 isinstance(x, ast.Call) and show(x.func) == f"{t}.condition" for x in g.ifs)
             calls = [e for e in p.calls() if show(e.term.func) == "asyncio.gather"]
             ok = ok and calls and calls[0].x.get("awaited")
-        rep.check(bool(ok), "C14.collect", fn.loc(), "executor.async_call awaits gather() over every selected callback (order-preserving)",
+        rep.check(bool(ok), rule, fn.loc(), "executor.async_call awaits gather() over every selected callback (order-preserving)",
                   fn.key, f"return {show(v)}")
     reg = ctx.fn("CallbacksRegistry.call")
     for p in ctx.paths(reg, exc_edges="none"):
         v = expand(p.value, p.events) if p.kind == "return" else None
         ok = (isinstance(v, ast.List) and not v.elts) or (isinstance(v, ast.Call) and show(v.func) == "self._registry[key].call"
                                                           and [show(a) for a in v.args] == ["*args"])
-        rep.check(ok, "C14.collect", reg.loc(), "registry.call yields [] for an empty group, else the executor's list", reg.key, f"return {show(v)}")
+        rep.check(ok, rule, reg.loc(), "registry.call yields [] for an empty group, else the executor's list", reg.key, f"return {show(v)}")
     rega = ctx.fn("CallbacksRegistry.async_call")
     for p in ctx.paths(rega, exc_edges="none"):
         v = expand(p.value, p.events) if p.kind == "return" else None
         ok = isinstance(v, ast.Call) and show(v.func) == "self._registry[key].async_call" and [show(a) for a in v.args] == ["*args"]
-        rep.check(ok, "C14.collect", rega.loc(), "registry.async_call delegates to the executor of that key", rega.key, f"return {show(v)}")
+        rep.check(ok, rule, rega.loc(), "registry.async_call delegates to the executor of that key", rega.key, f"return {show(v)}")
 
 
 def rule_none(ctx: Ctx):
